@@ -58,6 +58,8 @@ def handle (c : Json) : Json :=
             (if regionStripped f t args then ["stripped"] else []) ++
             (if args.any Val.hasNT || kw.any (fun kv => kv.2.hasNT) || f.params.any (fun p => match p.dflt with | some d => d.hasNT | none => false)
                 || (match body with | .ret r => r.hasNT | _ => false) then ["namedtuple"] else []) ++
+            (if args.any Val.hasIter || kw.any (fun kv => kv.2.hasIter) || f.params.any (fun p => match p.dflt with | some d => d.hasIter | none => false)
+                || (match body with | .ret r => r.hasIter | _ => false) then ["iterator"] else []) ++
             (if !(args.all Val.plain && kw.all (fun kv => kv.2.plain) && (match body with | .ret r => r.plain | _ => true)) then ["nonPlain"] else []) ++
             -- a string annotation / forward reference that the calling module does not bind (outside the vocabulary "forward references naming a class")
             (if f.params.any (fun p => match p.ann with | some a => a.hasUnresolvedFwd env | none => false)
